@@ -26,11 +26,15 @@
               descriptors other than 0-2, coprocesses, unsupported builtin flags) or edge values
               of expansions (negative slices, bad subscripts, division by zero, bad patterns),
               each in every context and (thorough) every ordered pair at top level.
+   "slice"    substring / slice expansions ${X:offset:length} enumerated as offset x length over the
+              edge-value alphabet {0 1 3 -1 -4 99 -99 empty $unset} (length also absent) on subjects of several
+              lengths: scalars of length 0/1/5, a positional parameter, an array element, ${a[@]:o:l},
+              ${a[*]:o:l}, ${@:o:l}, ${*:o:l}; quoted and unquoted.  The spec renders the program.
    The verdict of C28 is a panic (or a call that does not return); status/output expectations
    are cross-checked against bash to keep the spec honest and reported as notes. *)
 EXTENDS Integers, Sequences, FiniteSets, TLC, Json
 
-CONSTANTS Modes,          \* subset of {"getopts", "count", "breadth", "params", "syntax"}
+CONSTANTS Modes,          \* subset of {"getopts", "count", "breadth", "params", "syntax", "slice"}
           GMaxHist,       \* getopts: steps per history
           GMaxArgs,       \* getopts: arguments per call
           GWordIds,       \* getopts: indices into GWordTable
@@ -274,6 +278,23 @@ Constructs == <<
 NConstructs == Len(Constructs)
 
 -----------------------------------------------------------------------------
+(* ---------------- slice: ${X:offset:length} over edge values ---------------- *)
+\* offsets and lengths: edge integers, the empty expression (${v::2}; rejected by the parser where bash
+\* accepts it, then the vector is only counted) and an expression that is empty at run time ($z is unset)
+SliceVals    == <<"0", "1", "3", "-1", "-4", "99", "-99", "", "$z">>
+SliceNoLen   == Len(SliceVals) + 1                                 \* index meaning "no :length part"
+\* subjects: what stands before the first colon (lengths 0, 1, 5, 6; 3 array elements; 2 parameters)
+SliceSubjects == <<"e", "s", "v", "1", "a[1]", "a[@]", "a[*]", "@", "*", "a[9]", "nosuch">>
+SlicePrelude  == "e=; s=a; v=abcde; a=(abcde fg hij); set -- abcdef xy"
+SliceForms    == <<"quoted", "unquoted">>
+\* the offset is always preceded by a blank so that negative offsets are not read as ${X:-word}
+SliceWord(subj, oi, li) ==
+  "${" \o subj \o (IF SliceVals[oi] = "" THEN ":" ELSE ": ") \o SliceVals[oi] \o (IF li = SliceNoLen THEN "" ELSE ":" \o SliceVals[li]) \o "}"
+SliceProg(subj, form, oi, li) ==
+  << SlicePrelude,
+     IF form = "quoted" THEN "echo \"<" \o SliceWord(subj, oi, li) \o ">\"" ELSE "echo x" \o SliceWord(subj, oi, li) \o "y" >>
+
+-----------------------------------------------------------------------------
 (* ---------------- the enumerating state machine ---------------- *)
 Init == /\ mode \in Modes /\ hist = <<>> /\ g = GInit
 
@@ -316,6 +337,15 @@ SyntaxAdd ==
   /\ mode = "syntax" /\ Len(hist) >= 2 /\ Len(hist) - 1 < SMaxLen /\ hist[1].ctx = "top"
   /\ \E i \in 1..NConstructs : hist' = Append(hist, i)
   /\ UNCHANGED <<mode, g>>
+SliceStart ==
+  /\ mode = "slice" /\ hist = <<>>
+  /\ \E i \in 1..Len(SliceSubjects), f \in 1..Len(SliceForms) :
+        hist' = <<[name |-> SliceSubjects[i], ctx |-> SliceForms[f]]>>
+  /\ UNCHANGED <<mode, g>>
+SliceAdd ==                    \* hist = <<[subject, form], offset index, length index>>
+  /\ mode = "slice" /\ Len(hist) \in {1, 2}
+  /\ \E i \in 1..(IF Len(hist) = 1 THEN Len(SliceVals) ELSE SliceNoLen) : hist' = Append(hist, i)
+  /\ UNCHANGED <<mode, g>>
 MaxArgsHere == IF mode = "count" THEN 2
                ELSE IF mode = "params" THEN PMaxArgs
                ELSE IF hist[1].ctx = "top" THEN BMaxArgs ELSE BMaxArgsCtx
@@ -324,7 +354,7 @@ AddWord ==
   /\ \E w \in 1..NWords : hist' = Append(hist, w)
   /\ UNCHANGED <<mode, g>>
 
-Next == GetoptsStep \/ CountStart \/ BreadthStart \/ ParamsStart \/ AddWord \/ SyntaxStart \/ SyntaxAdd
+Next == GetoptsStep \/ CountStart \/ BreadthStart \/ ParamsStart \/ AddWord \/ SyntaxStart \/ SyntaxAdd \/ SliceStart \/ SliceAdd
 Spec == Init /\ [][Next]_vars
 
 -----------------------------------------------------------------------------
@@ -357,6 +387,12 @@ CountVec ==
 EmitVec ==
   \/ /\ hist = <<>>
      /\ PrintT(<<"STAT", ToJson([mode |-> mode, prelude |-> Prelude, ctx |-> CtxTemplate])>>)
+  \/ /\ mode = "slice"
+     /\ (Len(hist) < 3 \/
+         PrintT(<<"VEC", ToJson([fam |-> "slice", subj |-> hist[1].name, form |-> hist[1].ctx,
+                                 off |-> SliceVals[hist[2]],
+                                 len |-> IF hist[3] = SliceNoLen THEN "none" ELSE SliceVals[hist[3]],
+                                 prog |-> SliceProg(hist[1].name, hist[1].ctx, hist[2], hist[3])])>>))
   \/ /\ mode = "syntax"
      /\ PrintT(<<"VEC", ToJson([fam |-> "syntax", ctx |-> hist[1].ctx,
                                 cons |-> [i \in 1..(Len(hist) - 1) |-> Constructs[hist[i + 1]]]])>>)
